@@ -11,7 +11,11 @@
 (*        Load (constructor)  Scale (__mul__)  And (product)  Or (mix)  Marg (marginalize)*)
 (*     with the loops of the code (first-wins de-duplication, dropped zero rows,          *)
 (*     matched / unmatched bookkeeping, resulting row and key order).                    *)
-(* (P) JoinLaw, JoinCommutes, IndependentProduct, MixLaw, MargLaw, StackWellFormed.      *)
+(* (P) JoinLaw, JoinCommutes, IndependentProduct, MixLaw, MargLaw, StackWellFormed,      *)
+(*     ExponentClasses, ClassOfProduct.                                                  *)
+(*     Extreme weight classes: every table on the stack has a symbolic decimal exponent   *)
+(*     class (xstack): weights are mantissa * 10^class.  Normalised results are decided   *)
+(*     on the mantissas; the implementation gets the real extreme floats / logits.        *)
 (*                                                                                      *)
 (* Modes (IOEnv.MODE):                                                                   *)
 (*   "batch"  programs sampled by the harness (nested variables, 3 values, chains of ops) *)
@@ -24,8 +28,8 @@ EXTENDS FactorTable, Json, IOUtils
 Mode  == IOEnv.MODE
 Batch == IF Mode = "batch" THEN JsonDeserialize(IOEnv.BATCH_FILE) ELSE <<>>
 
-VARIABLES iid, src, prog, top, pc, stack, note
-vars == <<iid, src, prog, top, pc, stack, note>>
+VARIABLES iid, src, prog, top, pc, stack, xstack, note
+vars == <<iid, src, prog, top, pc, stack, xstack, note>>
 
 \* ------------------------------------------------------------------ exhaustive family
 Dom == {0, 1}
@@ -42,23 +46,24 @@ ExhShapes ==
   THEN {<< <<1>>, <<1>>, {"and", "or"}, WSel >>, << <<1>>, <<2>>, {"and"}, WSel >>, << <<1, 2>>, <<2>>, {"and"}, WSel >>}
   ELSE {<< <<1, 2>>, <<2, 3>>, {"and"}, WSel >>, << <<1, 2>>, <<3>>, {"and"}, WSel >>, << <<2>>, <<2, 1>>, {"and"}, WSel >>,
         << <<1, 2>>, <<2, 1>>, {"or"}, {-1, 0, 1} >>, << <<1, 2>>, <<1, 2>>, {"or"}, {-1, 0, 1} >>}
-Instr(op) == [op |-> op, k |-> 0, n |-> 1, d |-> 1, keep |-> <<>>]
+Instr(op) == [op |-> op, k |-> 0, n |-> 1, d |-> 1, e |-> 0, keep |-> <<>>]
 
 \* ------------------------------------------------------------------ machine
-NoNote == [op |-> "init", samevars |-> FALSE, keyorder |-> FALSE, disjoint |-> FALSE, anyempty |-> FALSE]
+NoNote == [op |-> "init", samevars |-> FALSE, keyorder |-> FALSE, disjoint |-> FALSE, anyempty |-> FALSE,
+           zerogroup |-> FALSE]
 
 Init ==
   /\ pc = 1 /\ note = NoNote
   /\ IF Mode = "batch"
      THEN /\ iid \in 1..Len(Batch)
           /\ src = Batch[iid].tabs /\ prog = Batch[iid].prog /\ top = Batch[iid].top
-          /\ stack = <<>>
+          /\ stack = <<>> /\ xstack = <<>>
      ELSE /\ iid = 0
           /\ \E sh \in ExhShapes : \E s1 \in Sels(sh[1], sh[4]) : \E s2 \in Sels(sh[2], sh[4]) :
                \E op \in sh[3] :
                  LET t1 == TLCEval(TabOf(sh[1], s1))
                      t2 == TLCEval(TabOf(sh[2], s2)) IN
-                 /\ src = <<t1, t2>> /\ stack = <<t1, t2>>
+                 /\ src = <<t1, t2>> /\ stack = <<t1, t2>> /\ xstack = <<0, 0>>
                  /\ prog = <<Instr(op)>>
           /\ top = <<1, 2, 3>>
 
@@ -69,6 +74,20 @@ A1 == stack[Depth - 1]          \* left operand (self)
 A2 == stack[Depth]              \* right operand (other) / the table a unary operation acts on
 Pop2Push(t) == SubSeq(stack, 1, Depth - 2) \o <<t>>
 Pop1Push(t) == SubSeq(stack, 1, Depth - 1) \o <<t>>
+\* Extreme weight classes.  The weight of row r of stack[i] is (w / den) * 10^xstack[i]: the table
+\* carries exact small mantissas, the decimal exponent class is tracked symbolically next to it
+\* (10^-400 is no TLC integer and no float either).  A product adds the classes, scaling by
+\* (n / d) * 10^e adds e, a marginal keeps the class; a mixture adds weights row by row and is only
+\* requested between operands of the same class.  Since a class multiplies every row of a table by
+\* the same factor, the *normalised* result of every operation is decided on the mantissas alone -
+\* while the implementation receives the real floats (1e-170, logits of +-800 after a product).
+X1 == xstack[Depth - 1]
+X2 == xstack[Depth]
+XPop2Push(x) == SubSeq(xstack, 1, Depth - 2) \o <<x>>
+XPop1Push(x) == SubSeq(xstack, 1, Depth - 1) \o <<x>>
+SrcEx(k) == IF Mode = "batch" THEN Batch[iid].exps[k] ELSE 0
+\* np.exp(logit) is evaluated by mix() and marginalize(): their operands must be ordinary floats
+OrdinaryClass(x) == x >= -200 /\ x <= 200
 
 RECURSIVE Dedup(_)
 Dedup(sq) ==
@@ -87,17 +106,24 @@ BinNote(op) == [op |-> op, samevars |-> VarSet(A1) = VarSet(A2),
                 disjoint |-> VarSet(A1) \cap VarSet(A2) = {},
                 anyempty |-> NRows(A1) = 0 \/ NRows(A2) = 0]
 UnNote(op) == [NoNote EXCEPT !.op = op]
+\* some group of the marginal has total weight zero (then log(0) = -inf enters the scores)
+ZeroGroup(t, keep) == \E g \in MargAsgs(t, Range(keep)) : MargWeight(t, Range(keep), g) = 0
 
 Load  == /\ Running /\ Cur.op = "load"
-         /\ stack' = Append(stack, src[Cur.k]) /\ note' = UnNote("load")
+         /\ stack' = Append(stack, src[Cur.k]) /\ xstack' = Append(xstack, SrcEx(Cur.k))
+         /\ note' = UnNote("load")
 Scale == /\ Running /\ Cur.op = "scale" /\ Depth >= 1
-         /\ stack' = Pop1Push(RefScale(A2, Cur.n, Cur.d)) /\ note' = UnNote("scale")
+         /\ stack' = Pop1Push(RefScale(A2, Cur.n, Cur.d)) /\ xstack' = XPop1Push(X2 + Cur.e)
+         /\ note' = UnNote("scale")
 And   == /\ Running /\ Cur.op = "and" /\ Depth >= 2
-         /\ stack' = Pop2Push(RefJoin(A1, A2)) /\ note' = BinNote("and")
+         /\ stack' = Pop2Push(RefJoin(A1, A2)) /\ xstack' = XPop2Push(X1 + X2)
+         /\ note' = BinNote("and")
 Or    == /\ Running /\ Cur.op = "or" /\ Depth >= 2
-         /\ stack' = Pop2Push(RefMix(A1, A2)) /\ note' = BinNote("or")
+         /\ stack' = Pop2Push(RefMix(A1, A2)) /\ xstack' = XPop2Push(IF NRows(A1) = 0 THEN X2 ELSE X1)
+         /\ note' = BinNote("or")
 Marg  == /\ Running /\ Cur.op = "marg" /\ Depth >= 1
-         /\ stack' = Pop1Push(RefMarg(A2, Cur.keep)) /\ note' = UnNote("marg")
+         /\ stack' = Pop1Push(RefMarg(A2, Cur.keep)) /\ xstack' = XPop1Push(X2)
+         /\ note' = [UnNote("marg") EXCEPT !.zerogroup = ZeroGroup(A2, Cur.keep)]
 
 Next == /\ (Load \/ Scale \/ And \/ Or \/ Marg)
         /\ pc' = pc + 1 /\ UNCHANGED <<iid, src, prog, top>>
@@ -107,9 +133,9 @@ Spec == Init /\ [][Next]_vars
 Emit ==
   pc > 1 =>
     IF Mode = "batch"
-    THEN PrintT(ToJson([iid |-> iid, step |-> pc - 1, note |-> note, res |-> stack[Depth]]))
+    THEN PrintT(ToJson([iid |-> iid, step |-> pc - 1, note |-> note, res |-> stack[Depth], ex |-> xstack[Depth]]))
     ELSE PrintT(ToJson([iid |-> 0, step |-> 1, note |-> note, t1 |-> src[1], t2 |-> src[2],
-                        res |-> stack[Depth]]))
+                        res |-> stack[Depth], ex |-> xstack[Depth]]))
 
 \* ------------------------------------------------------------------ (P) properties, evaluated in
 \* the state *before* the operation (where both operands are still on the stack)
@@ -150,4 +176,20 @@ StackWellFormed ==
   /\ \A i \in 1..Depth : WellFormedTab(stack[i]) /\ DupFree(stack[i])
   /\ (Before("or") /\ Depth >= 2) => VarSet(A1) = VarSet(A2) \/ NRows(A1) = 0 \/ NRows(A2) = 0
   /\ Running => Depth >= (IF Cur.op \in {"and", "or"} THEN 2 ELSE IF Cur.op = "load" THEN 0 ELSE 1)
+\* instance filter for the extreme weight classes: one class per table on the stack; every table that
+\* is loaded has |class| <= 400 (up to 250 the weights themselves are floats, 3e250 and 1e-250 exist, and may
+\* be given as probs=; beyond that the harness gives logits= / scores= directly), scaling factors are floats;
+\* mixtures only between operands of one ordinary class, marginals only of an ordinary class.
+\* Products are unrestricted: their class may leave the float range (that is the point).
+ExponentClasses ==
+  /\ Len(xstack) = Depth
+  /\ (Before("load")) => SrcEx(Cur.k) >= -400 /\ SrcEx(Cur.k) <= 400
+  /\ (Before("scale") /\ Depth >= 1) => Cur.e >= -250 /\ Cur.e <= 250
+  /\ (Before("or") /\ Depth >= 2 /\ NRows(A1) > 0 /\ NRows(A2) > 0) => X1 = X2 /\ OrdinaryClass(X1)
+  /\ (Before("marg") /\ Depth >= 1) => OrdinaryClass(X2)
+\* the normalised product does not depend on the classes: a product of the same mantissa tables in
+\* class 0 has the same positive function (RefJoin never looks at xstack) and the class of the
+\* result is the sum - stated so that a change of the bookkeeping above is caught
+ClassOfProduct ==
+  (Before("and") /\ Depth >= 2) => XPop2Push(X1 + X2)[Depth - 1] = X1 + X2
 =============================================================================
